@@ -8,6 +8,7 @@ package c05
 //
 //	0 signer  1 fee collector  2 EOA recipient R  3 contract X  4 beneficiary B
 //	5 N = CreateAddress(signer, nonce)  6 contract Y (frame-revert shape)  7 B2  8 C3  9 driver contract D
+//	10, 11 second and third signer  12 factory F  13 XF = address of F's next CREATE / CREATE2
 //
 // plus tx code, VmError flag and MsgEthereumTxResponse.GasUsed (EventEthereumTx.gas_used).
 //
@@ -56,6 +57,10 @@ type c05Tx struct {
 	W       string `json:"w"`       // x modes 3,6: wei forwarded; modes 7,8: unibi sent by the precompile
 	Signer  int       `json:"signer"` // inside a bundle: which of the three funded keys signs (0, 1, 2)
 	Bundle  []c05Tx   `json:"bundle"` // non-empty: ONE Cosmos tx carrying these MsgEthereumTx; the outer fields are unused
+	FV      string    `json:"fv"`     // target f: wei the factory first pays to the address its CREATE/CREATE2 will use
+	FE      string    `json:"fe"`     // target f: endowment of the creation
+	FInit   string    `json:"finit"`  // target f: init code outcome ok | revert | oog | invalid
+	FC2     bool      `json:"fc2"`    // target f: CREATE2 instead of CREATE
 	Steps   []c05Step `json:"steps"` // target d: calls the driver contract D makes to X inside this one tx
 }
 
@@ -104,6 +109,9 @@ type c05Obs struct {
 var c05XInit = mustHex("6100bf600e6000396100bf6000f360003580600114610044578060021461004a578060031461004f57806004146100625780600514610067578060061461006a5780600714610081578060081461009e57005b60006000fd5b61004a565b60006000600060006020356040355af150005b604035ff5b30ff5b60006000600060006020356040355af15060006000fd5b6060360360606000376000600060603603600060006108005af150005b6060360360606000376000600060603603600060006108005af15060006000fd")
 var c05YRuntime = mustHex("33301461004257600060006000600065048c273950007300000000000000000000000000000000000000b25af150366000600037600060003660006000305af150005b3660006000376000600036600060006108005af150600060006000600064e8d4a510007300000000000000000000000000000000000000c35af15060006000fd")
 var c05DInit = mustHex("610045600e6000396100456000f360005b80602035146100435780608002604001803560005280604001356020528060600135604052600060006060600084602001356000355af15050600101610002565b00")
+var c05FInit = mustHex("61003a600e60003961003a6000f360006000600060006020356000355af15060a03560c060003760603561002b5760a0356000604035f050005b60803560a0356000604035f55000")
+var c05InitOOG = mustHex("5b600056")
+var c05InitInvalid = mustHex("fe")
 var c05CreateOK = mustHex("600160005360016000f3")     // returns 1 byte of runtime code
 var c05CreateRevert = mustHex("60006000fd")
 
@@ -132,7 +140,8 @@ type c05World struct {
 	c        *Chain
 	deployer evmtest.EthPrivKeyAcc
 	dnonce   uint64
-	X, Y, D  gethcommon.Address
+	X, Y, D, F gethcommon.Address
+	salt     int64
 	xAlive   bool
 	B2, C3   gethcommon.Address
 	blocks   int
@@ -168,6 +177,7 @@ func newC05World(t *testing.T) *c05World {
 	yinit := append([]byte{0x60, byte(len(c05YRuntime)), 0x80, 0x60, 0x0B, 0x60, 0x00, 0x39, 0x60, 0x00, 0xF3}, c05YRuntime...)
 	w.Y = w.deploy(t, yinit, 100_000)
 	w.D = w.deploy(t, c05DInit, 1_000_000)
+	w.F = w.deploy(t, c05FInit, 1_000_000)
 	c.EndBlock()
 	return w
 }
@@ -240,7 +250,22 @@ func (w *c05World) runCase(t *testing.T, cs c05Case) ([]c05Der, []c05Obs) {
 		}
 		nonce0 := seqOf(S)
 		N := crypto.CreateAddress(S.EthAddr, nonce0)
-		accts := []gethcommon.Address{S.EthAddr, fc, R, w.X, B, N, w.Y, w.B2, w.C3, w.D, S1.EthAddr, S2.EthAddr}
+		// the address the factory's creation of this tx will use
+		fInit := c05CreateOK
+		switch tx.FInit {
+		case "revert":
+			fInit = c05CreateRevert
+		case "oog":
+			fInit = c05InitOOG
+		case "invalid":
+			fInit = c05InitInvalid
+		}
+		w.salt++
+		XF := crypto.CreateAddress(w.F, c.App.EvmKeeper.GetAccNonce(ctx, w.F))
+		if tx.FC2 {
+			XF = crypto.CreateAddress2(w.F, gethcommon.BigToHash(big.NewInt(w.salt)), crypto.Keccak256(fInit))
+		}
+		accts := []gethcommon.Address{S.EthAddr, fc, R, w.X, B, N, w.Y, w.B2, w.C3, w.D, S1.EthAddr, S2.EthAddr, w.F, XF}
 		blockGas := eth.BlockGasLimit(ctx)
 		if blockGas == 0 {
 			if cp := c.App.GetConsensusParams(ctx); cp != nil && cp.Block != nil && cp.Block.MaxGas > 0 {
@@ -314,6 +339,21 @@ func (w *c05World) runCase(t *testing.T, cs c05Case) ([]c05Der, []c05Obs) {
 					}
 					copy(data[o+108:o+128], ben.Bytes())
 				}
+			case "f":
+				a := w.F
+				to = &a
+				toID = 12
+				hasCode = true
+				data = make([]byte, 192)
+				copy(data[12:32], XF.Bytes())
+				bigOf(tx.FV).FillBytes(data[32:64])
+				bigOf(tx.FE).FillBytes(data[64:96])
+				if tx.FC2 {
+					data[127] = 1
+				}
+				big.NewInt(w.salt).FillBytes(data[128:160])
+				data[191] = byte(len(fInit))
+				data = append(data, fInit...)
 			case "create":
 				toID = 5
 				hasCode = true
@@ -348,6 +388,9 @@ func (w *c05World) runCase(t *testing.T, cs c05Case) ([]c05Der, []c05Obs) {
 				gas = intrinsic + 300_000
 				if tx.Target == "d" {
 					gas = intrinsic + 2_000_000
+				}
+				if tx.Target == "f" {
+					gas = intrinsic + 700_000
 				}
 			case "large":
 				gas = blockGas
@@ -486,8 +529,14 @@ func genC05Tx(r *Rng) c05Tx {
 	case 4: // huge
 		tx.Cap = "1000000000000000000"
 	}
-	tx.Target = []string{"eoa", "x", "create", "y", "d"}[r.Pick(5, 8, 2, 1, 4)]
+	tx.Target = []string{"eoa", "x", "create", "y", "d", "f"}[r.Pick(5, 8, 2, 1, 4, 4)]
 	switch tx.Target {
+	case "f":
+		// the factory pre-funds the address of its next creation, then creates there with an endowment
+		tx.FV = pickStr(r, "0", "3000000000000", "1000000000000", "2000000000001", "999999999999", rndWei(r, 9))
+		tx.FE = pickStr(r, "0", "7000000000000", "1000000000000", "5000000000001", "1", rndWei(r, 9))
+		tx.FInit = []string{"ok", "revert", "oog", "invalid"}[r.Pick(3, 4, 2, 2)]
+		tx.FC2 = r.Chance(1, 3)
 	case "d":
 		// several calls into X inside one tx: self-destructs interleaved with payments into X and transfers out
 		n := r.Range(2, 5)
@@ -506,7 +555,7 @@ func genC05Tx(r *Rng) c05Tx {
 	case "create":
 		tx.Mode = r.Pick(3, 1)
 	}
-	if tx.Target == "d" {
+	if tx.Target == "d" || tx.Target == "f" {
 		tx.GasMode = []string{"below", "exact", "ample"}[r.Pick(1, 1, 14)]
 	} else if tx.Target == "eoa" {
 		tx.GasMode = []string{"below", "exact", "plus", "ample", "large", "over"}[r.Pick(2, 4, 3, 3, 1, 1)]
@@ -525,7 +574,7 @@ func genC05Tx(r *Rng) c05Tx {
 	if tx.Target == "y" {
 		tx.Value = "0"
 	}
-	if tx.Target == "d" && (strings.HasPrefix(tx.Value, "bal-") || len(tx.Value) > 15) {
+	if (tx.Target == "d" || tx.Target == "f") && (strings.HasPrefix(tx.Value, "bal-") || len(tx.Value) > 15) {
 		tx.Value = "1000000000000"
 	}
 	return tx
@@ -538,6 +587,7 @@ func genC05Bundle(r *Rng) c05Tx {
 	for i := 0; i < n; i++ {
 		m := genC05Tx(r.Fork())
 		m.Steps = nil
+		m.FV, m.FE, m.FInit, m.FC2 = "", "", "", false
 		m.Signer = r.Intn(3)
 		if i > 0 && r.Chance(1, 4) {
 			m.Signer = subs[0].Signer
@@ -625,6 +675,15 @@ func TestC05(t *testing.T) {
 	run(c05Case{Fund: "1000000000000", RBal: "0", Txs: []c05Tx{dtx(kill("B"), pay("3000000000000"), kill("B"), kill("R")),
 		dtx(kill("B"), pay("3000000000000"), kill("R"), c05Step{Mode: 3, Val: "0", W: "3000000000000", Benef: "D"}),
 		dtx(c05Step{Mode: 5, Val: "0", W: "0", Benef: "X"}, pay("2000000000000"), c05Step{Mode: 5, Val: "1000000000000", W: "0", Benef: "X"}, kill("D"), pay("4000000000001"))}})
+	// … a factory that pays the address of its next creation and then creates there with an endowment:
+	// init code ok / revert / out of gas / invalid, CREATE and CREATE2
+	ftx := func(fv, fe, init string, c2 bool) c05Tx {
+		return c05Tx{Ty: 0, GasMode: "ample", Gp: base, Tip: "0", Cap: "0", Value: "0", Target: "f", W: "0", FV: fv, FE: fe, FInit: init, FC2: c2}
+	}
+	run(c05Case{Fund: "1000000000000", RBal: "0", Txs: []c05Tx{ftx("3000000000000", "7000000000000", "revert", false),
+		ftx("3000000000000", "7000000000000", "ok", false), ftx("2000000000001", "5000000000001", "oog", false)}})
+	run(c05Case{Fund: "1000000000000", RBal: "0", Txs: []c05Tx{ftx("3000000000000", "7000000000000", "invalid", true),
+		ftx("1000000000000", "7000000000000", "revert", true), ftx("0", "7000000000000", "revert", false), ftx("3000000000000", "4000000000000", "ok", true)}})
 	// … one Cosmos tx bundling messages of different signers (each pays for its own gas) and of one signer
 	sub := func(signer int, gm string, gasadd int, gp, value, target string, mode int, w string) c05Tx {
 		return c05Tx{Signer: signer, Ty: 0, GasMode: gm, GasAdd: gasadd, Gp: gp, Tip: "0", Cap: "0", Value: value, Target: target, Mode: mode, W: w}
